@@ -168,6 +168,22 @@ def run(ctx):
     # header literal
     heads_w = [v for v, n in string_values(ts, [f for f in scope if f is not ts]) if v.startswith('Traceback')]
     heads_r = [v for v, n in string_values(fs, [f for f in with_helpers(prog, fs, pci) if f is not fs]) if v.startswith('Traceback')]
+    # ... and it is written on every path (a text without frames still starts with the header: from_string requires it)
+    from rules.common import PrivInl as _PI16
+    for e_, p_, w_ in returned_values(prog, ts, recv=pci, model=_PI16(prog)):
+        on_path = any(isinstance(getattr(o, 'val', None), ast.AST) and any(
+            isinstance(x, ast.Constant) and isinstance(x.value, str) and x.value.startswith('Traceback') for x in ast.walk(o.val))
+            for o in p_.ops) or (e_ is not None and 'Traceback' in txt(e_))
+        # the header may sit in a fresh list literal token
+        if not on_path:
+            for nm, info in w_.tokens.items():
+                if info[0] == 'fresh' and len(info) > 3 and any(
+                        isinstance(x, ast.Constant) and isinstance(x.value, str) and x.value.startswith('Traceback')
+                        for y in info[3] for x in ast.walk(y)) and any(
+                        isinstance(getattr(o, 'val', None), ast.Name) and o.val.id == nm for o in p_.ops):
+                    on_path = True
+        ctx.ob('T12.header', ts.fq, 'the header line is written on every path of to_string', on_path, loc=ts.loc,
+               path=p_.describe() if not on_path else None)
     ctx.ob('T12.header', ts.fq, 'header literal written == header literal recognised', bool(heads_w) and set(heads_w) == set(heads_r),
            loc=ts.loc, detail='%s vs %s' % (heads_w, heads_r))
     # exception line separator
